@@ -239,6 +239,17 @@ func (k *kind) normZero(s string) string {
 	return sb.String()
 }
 
+// show renders a value for messages (byte strings in hex).
+func (k *kind) show(v parquet.Value) string {
+	if v.IsNull() {
+		return "null"
+	}
+	if k.Num {
+		return fmt.Sprintf("%v", v)
+	}
+	return hex.EncodeToString(v.Bytes())
+}
+
 func (k *kind) fixedSize() int {
 	if k.Typ.Kind() == parquet.FixedLenByteArray {
 		return k.Typ.Length()
@@ -344,7 +355,7 @@ func orderClaimTrue(k *kind, order format.BoundaryOrder, nullPage func(int) bool
 				a, b = -a, -b
 			}
 			if a > 0 || b > 0 {
-				return false, fmt.Sprintf("order %v is claimed but pages %d [%v,%v] and %d [%v,%v] are not in that order", order, i, mins[i], maxs[i], j, mins[j], maxs[j])
+				return false, fmt.Sprintf("order %v is claimed but pages %d [%s,%s] and %d [%s,%s] are not in that order", order, i, k.show(mins[i]), k.show(maxs[i]), j, k.show(mins[j]), k.show(maxs[j]))
 			}
 		}
 	}
@@ -591,7 +602,7 @@ func boundsPredicate(k *kind, mn, mx parquet.Value, has bool, vals []parquet.Val
 		return ""
 	}
 	if nonNull == 0 {
-		return fmt.Sprintf("bounds [%v,%v] for a unit without values", mn, mx)
+		return fmt.Sprintf("bounds [%s,%s] for a unit without values", k.show(mn), k.show(mx))
 	}
 	if nonNaN > 0 && (k.isNaN(mn) || k.isNaN(mx)) {
 		return fmt.Sprintf("bounds [%v,%v] are NaN although the unit holds %d other values", mn, mx, nonNaN)
@@ -608,10 +619,10 @@ func boundsPredicate(k *kind, mn, mx parquet.Value, has bool, vals []parquet.Val
 			continue
 		}
 		if k.Typ.Compare(mn, v) > 0 {
-			return fmt.Sprintf("min %v is above the value %v", mn, v)
+			return fmt.Sprintf("min %s is above the value %s", k.show(mn), k.show(v))
 		}
 		if k.Typ.Compare(v, mx) > 0 {
-			return fmt.Sprintf("max %v is below the value %v", mx, v)
+			return fmt.Sprintf("max %s is below the value %s", k.show(mx), k.show(v))
 		}
 		if bytes.Equal(v.Bytes(), mn.Bytes()) {
 			minHit = true
@@ -621,7 +632,7 @@ func boundsPredicate(k *kind, mn, mx parquet.Value, has bool, vals []parquet.Val
 		}
 	}
 	if exact && (!minHit || !maxHit) {
-		return fmt.Sprintf("bounds [%v,%v] are not values of the unit", mn, mx)
+		return fmt.Sprintf("bounds [%s,%s] are not values of the unit", k.show(mn), k.show(mx))
 	}
 	return ""
 }
@@ -717,6 +728,8 @@ type fcase struct {
 	NoStats bool   `json:"no_page_statistics,omitempty"`
 	Copy    bool   `json:"copy_path,omitempty"`
 	Sort    string `json:"sorting,omitempty"` // "", "asc", "desc": declared on column 0
+	// SkipBounds: parquet.SkipPageBounds on column 0 (no bounds in the footer for it)
+	SkipBounds bool `json:"skip_page_bounds,omitempty"`
 }
 
 func colName(i int) string { return fmt.Sprintf("c%02d", i) }
@@ -802,6 +815,9 @@ func (fc *fcase) options(s *parquet.Schema) []parquet.WriterOption {
 	}
 	if fc.NoStats {
 		opts = append(opts, parquet.DataPageStatistics(false))
+	}
+	if fc.SkipBounds {
+		opts = append(opts, parquet.SkipPageBounds(colName(0)))
 	}
 	switch fc.Sort {
 	case "asc":
@@ -910,6 +926,23 @@ func headerStats(data []byte, cm *format.ColumnMetaData) (out []pageStat, err er
 	return out, nil
 }
 
+// rawColumnIndex decodes the column index of a chunk from the file bytes; nil
+// when the chunk has none.
+func rawColumnIndex(data []byte, cc *format.ColumnChunk) (*format.ColumnIndex, error) {
+	off, n := cc.ColumnIndexOffset, int64(cc.ColumnIndexLength)
+	if off == 0 {
+		return nil, nil
+	}
+	if off < 0 || off+n > int64(len(data)) {
+		return nil, fmt.Errorf("column index [%d,%d) outside the file", off, off+n)
+	}
+	ci := new(format.ColumnIndex)
+	if err := thrift.Unmarshal(&thrift.CompactProtocol{}, data[off:off+n], ci); err != nil {
+		return nil, err
+	}
+	return ci, nil
+}
+
 type pageData struct {
 	vals []parquet.Value // every value of the page, nulls included
 	rows int64
@@ -1001,7 +1034,6 @@ func checkFile(c *core.Ctx, fc *fcase, data []byte, label string) bool {
 	ok := true
 	md := f.Metadata()
 	ncols := len(fc.Cols)
-	rawCI := f.ColumnIndexes()
 	// sorting metadata: only what was declared
 	for rgi := range md.RowGroups {
 		sc := md.RowGroups[rgi].SortingColumns
@@ -1035,6 +1067,7 @@ func checkFile(c *core.Ctx, fc *fcase, data []byte, label string) bool {
 			k := kindByName[col.Kind]
 			typ := cc.Type()
 			where := fmt.Sprintf("row group %d column %d (%s %s dict=%v)", rgi, ci, col.Kind, col.Rep, col.Dict)
+			skipBounds := fc.SkipBounds && ci == 0
 			cm := &md.RowGroups[rgi].Columns[ci].MetaData
 			pages, perr := readPages(cc)
 			if perr != "" {
@@ -1148,11 +1181,11 @@ func checkFile(c *core.Ctx, fc *fcase, data []byte, label string) bool {
 					ok = false
 				}
 				mn, mx, has := fcc.Bounds()
-				if why := boundsPredicate(k, mn, mx, has, all, k.Typ.Kind() != parquet.ByteArray); why != "" {
+				if why := boundsPredicate(k, mn, mx, has, all, k.Typ.Kind() != parquet.ByteArray && !skipBounds); why != "" {
 					viol("chunk-stats-wrong", fmt.Sprintf("%s: %s", where, why))
 					ok = false
 				}
-				if c.HasOracle() && has {
+				if c.HasOracle() && has && !skipBounds {
 					var ps []string
 					for _, p := range pages {
 						nn := countNulls(p.vals)
@@ -1205,13 +1238,18 @@ func checkFile(c *core.Ctx, fc *fcase, data []byte, label string) bool {
 			}
 
 			// ---- column index
+			raw, rerr := rawColumnIndex(data, &md.RowGroups[rgi].Columns[ci])
+			if raw == nil && rerr == nil && skipBounds {
+				// no column index for a column whose bounds are withheld: nothing can mislead a reader
+				c.Case("file/"+label+"/no-index", fmt.Sprintf("%s|%s|%d", label, col.Kind, len(pages)), len(pages) >= 2)
+				continue
+			}
 			ix, ierr := cc.ColumnIndex()
-			if ierr != nil || ix == nil {
-				viol("column-index-missing", fmt.Sprintf("%s: %v", where, ierr))
+			if ierr != nil || ix == nil || raw == nil {
+				viol("column-index-missing", fmt.Sprintf("%s: %v %v", where, ierr, rerr))
 				ok = false
 				continue
 			}
-			raw := &rawCI[rgi*ncols+ci]
 			np := len(pages)
 			if ix.NumPages() != np || len(raw.NullPages) != np || len(raw.NullCounts) != np || len(raw.MinValues) != np || len(raw.MaxValues) != np {
 				viol("index-misaligned", fmt.Sprintf("%s: %d pages, index has %d null_pages %d null_counts %d min_values %d max_values", where, np,
@@ -1313,7 +1351,7 @@ func checkFile(c *core.Ctx, fc *fcase, data []byte, label string) bool {
 						seen[k.tok(v)] = true
 						c.Res.Evaluations++
 						if r := parquet.Search(ix, v, typ); r > p {
-							viol("skip-unsafe", fmt.Sprintf("%s: value %v is in page %d of %d but Search returned %d (order %v, page bounds [%v,%v])", where, v, p, np, r, order, mins[p], maxs[p]))
+							viol("skip-unsafe", fmt.Sprintf("%s: value %s is in page %d of %d but Search returned %d (order %v, page bounds [%s,%s])", where, k.show(v), p, np, r, order, k.show(mins[p]), k.show(maxs[p])))
 							ok = false
 							return
 						}
@@ -1321,7 +1359,7 @@ func checkFile(c *core.Ctx, fc *fcase, data []byte, label string) bool {
 				}
 			}()
 			// the model's index from the page values
-			if c.HasOracle() {
+			if c.HasOracle() && !skipBounds {
 				lim := fc.Limit
 				req := "c05.index " + k.Model + " " + core.Zs(int64(lim)) + " " + strings.Join(idxPages, ",")
 				if want, got := c.Ask(req), canonIndex(k, raw); k.normZero(want) != k.normZero(got) && len(idxPages) == np {
@@ -1540,6 +1578,7 @@ func randFileCase(c *core.Ctx, i int) *fcase {
 		fc.MaxRows = int64(10 + c.Rng.Intn(n))
 	}
 	fc.NoStats = c.Rng.Intn(12) == 0
+	fc.SkipBounds = c.Rng.Intn(15) == 0
 	fc.Copy = c.Rng.Intn(3) == 0
 	switch c.Rng.Intn(8) {
 	case 0:
@@ -1629,6 +1668,8 @@ func runC05(c *core.Ctx) {
 		// 14734b5: dictionary page 1, NaN, 5
 		{PageBuf: 4096, Limit: 16, Batch: 3, Cols: []fcol{mk("double", "req", true, rowsOf("3ff0000000000000", "7ff8000000000000", "4014000000000000"))}},
 		{PageBuf: 4096, Limit: 16, Batch: 3, V2: true, Copy: true, Cols: []fcol{mk("float", "opt", true, rowsOf(nan32, one32, "N", five32))}},
+		// SkipPageBounds: no fake bounds may reach the column index
+		{PageBuf: 1, Limit: 16, Batch: 2, SkipBounds: true, Cols: []fcol{mk("int32", "req", false, rowsOf("5", "7", "9"))}},
 	}
 	for i := range corpusFiles {
 		fileRun(c, &corpusFiles[i])
